@@ -121,6 +121,11 @@ Section Engine.
 
   Definition price_run (fuel L0 N0 : nat) : outcome state := loop fuel (init_state L0 N0).
 
+  (* Engine.price as repaired (fix-mc4 fd99a8c): ValueError("initial_level must not exceed maximum_level") before anything
+     is simulated -- None; otherwise the loop *)
+  Definition price_entry (fuel L0 N0 : nat) : option (outcome state) :=
+    if Nat.ltb level_max L0 then None else Some (price_run fuel L0 N0).
+
   (* ---------------------------------------------------------------- fixed-level variant *)
   (* price_with_constant_mc_paths_and_level: statistics.extend([N]*(Lmax+1)) raises IndexError when the
      statistics hold more levels than Lmax+1 (initial_level > maximum_level): None *)
@@ -241,3 +246,9 @@ Definition pm_offs (e l : nat) : Q * Q :=
 Definition tab_pricing (c : list (list (Q * Q)) * list Q * list (list Z) * list bool * (Q * Q) * (nat * nat * nat * nat)) : mpricing :=
   let '(samples, ctab, atab, vtab, (df, no), (lmax, fuel, l0, n0)) := c in
   mkMP (tab_sample samples) (tab_cost ctab) (tab_alloc atab) (tab_conv vtab) const_garbage df no lmax fuel l0 n0.
+
+(* the repaired entry point on table oracles: None = ValueError (initial_level > maximum_level) *)
+Definition entry_tab (phantom : nat) (samples : list (list (Q * Q))) (ctab : list Q) (atab : list (list Z))
+           (vtab : list bool) (df notional : Q) (level_max fuel L0 N0 : nat) : option (outcome state) :=
+  price_entry (tab_sample samples) (tab_cost ctab) (tab_alloc atab) (tab_conv vtab) const_garbage
+              df notional level_max phantom fuel L0 N0.
